@@ -38,3 +38,37 @@ macro_rules! instrument {
         }
     };
 }
+
+/// Verification hook sink (only compiled with `--cfg compio_verif`).
+///
+/// Every hook in the workspace is one call to [`verif::point`]; it is a no-op
+/// unless a sink has been installed by a verification harness.
+#[cfg(compio_verif)]
+pub mod verif {
+    use std::sync::atomic::{AtomicPtr, Ordering};
+
+    /// Signature of a hook sink: `(site, a, b)`.
+    pub type Sink = fn(&'static str, u64, u64);
+
+    static SINK: AtomicPtr<()> = AtomicPtr::new(std::ptr::null_mut());
+
+    /// Install or remove the sink.
+    pub fn set_sink(f: Option<Sink>) {
+        let p = match f {
+            Some(f) => f as *mut (),
+            None => std::ptr::null_mut(),
+        };
+        SINK.store(p, Ordering::Release);
+    }
+
+    /// A hook point.
+    #[inline]
+    pub fn point(site: &'static str, a: u64, b: u64) {
+        let p = SINK.load(Ordering::Acquire);
+        if !p.is_null() {
+            // SAFETY: only values of type `Sink` are stored.
+            let f: Sink = unsafe { std::mem::transmute::<*mut (), Sink>(p) };
+            f(site, a, b);
+        }
+    }
+}
